@@ -283,6 +283,12 @@ class MembershipProtocol(Entity):
         if target_name not in self._pending_acks:
             return []
 
+        # The direct probe went unanswered: suspect the member now (SWIM). The
+        # suspicion timeout scheduled below only promotes a SUSPECT member to
+        # DEAD, and the phi detector alone never suspects a member that has not
+        # been heard from at all.
+        self._suspect_member(self._members[target_name], self.now.to_seconds())
+
         # Pick random delegates (excluding self and target)
         delegates = [
             name
